@@ -1,9 +1,14 @@
 (* C02 - Core-syntax recipes parse identically under every extension subset.
-   Proved: the gate lemmas of the parser model, both directions (extension off: its
-   syntax is never consulted; extension on but trigger token absent: same path as off),
-   and the enumeration of the 192 extension sets over the REGENERATED bit values.
-   The whole-document statement is monitored on the implementation under all 192 sets. *)
-From CL Require Import Base.StrLemmas Model.Parser Proofs.ParserGates.
+   Proved: the gate lemmas of the parser model and of the analysis model, one pair per
+   extension (extension off: its syntax is never consulted and the core reading results;
+   extension on but trigger absent: same result as off); their composition over the step loop
+   (C02_step_invariant_partial, C02_block_invariant_partial: a step block of core tokens gives
+   the same events for every configuration that differs only in the extension bits); and the
+   enumeration of the 192 extension sets over the REGENERATED bit values.
+   C02_full_statement (whole documents of the statement's class) is NOT proved: it is kept
+   visible as a Definition and monitored on the implementation under all 192 sets. *)
+From CL Require Import Base.StrLemmas Model.Parser Gen.CharClass Proofs.ParserGates Proofs.C02Invariance.
+From CL Require Model.Analysis Proofs.C02AnalysisGates.
 
 Theorem C02_range_off : forall cfg ts, has cfg X_RANGE_VALUES = false -> range_value cfg ts = None.
 Proof. exact range_off. Qed.
@@ -64,3 +69,130 @@ Theorem C02_subsets_192 :
   /\ forallb (fun e => N.land e X_ALL =? e) ext_sets = true.
 Proof. exact (conj ext_sets_192 (conj ext_sets_intermediate_implies_modifiers ext_sets_within_all)). Qed.
 Print Assumptions C02_subsets_192.
+
+(* ---- TIMER_REQUIRES_TIME (step.rs 460-467): the gate of timer_p ------------------------- *)
+Theorem C02_timer_time_off :
+  forall cfg q bd name, has cfg X_TIMER_REQUIRES_TIME = false -> timer_time_gate cfg q bd name = ret q.
+Proof. exact timer_time_off. Qed.
+Print Assumptions C02_timer_time_off.
+
+Theorem C02_timer_time_untriggered :
+  forall cfg q0 bd name, timer_time_gate cfg (Some q0) bd name = ret (Some q0).
+Proof. exact timer_time_untriggered. Qed.
+Print Assumptions C02_timer_time_untriggered.
+
+(* ---- INTERMEDIATE_PREPARATIONS (step.rs 103-111, 155-157) --------------------------------- *)
+Theorem C02_intermediate_off :
+  forall cfg fuel, has cfg X_INTERMEDIATE_PREPARATIONS = false ->
+    forall ts msp mods inter s m i s',
+      parse_mods_loop cfg fuel ts msp mods inter s = Done ((m, i), s') -> i = inter.
+Proof. exact intermediate_off. Qed.
+Print Assumptions C02_intermediate_off.
+
+Theorem C02_intermediate_off_loop :
+  forall cfg f acc s, has cfg X_INTERMEDIATE_PREPARATIONS = false -> peek_of s = KAnd ->
+    modifiers_loop cfg (S f) acc s = (t <- bump_any ;; modifiers_loop cfg f (acc ++ [t])) s.
+Proof. exact intermediate_off_loop. Qed.
+Print Assumptions C02_intermediate_off_loop.
+
+Theorem C02_intermediate_untriggered :
+  forall ts, tk_eqb (head_kind ts) KOpenParen = false -> parse_inter ts = ret (None, ts).
+Proof. exact intermediate_untriggered. Qed.
+Print Assumptions C02_intermediate_untriggered.
+
+(* The analysis model reuses names of the parser model (timer, modifiers, ...): its theorems
+   live in a module that imports it locally. *)
+Module AnalysisSide.
+Import CL.Model.Analysis CL.Proofs.C02AnalysisGates.
+
+(* ---- INLINE_QUANTITIES (event_consumer.rs 518): gate of the analysis model ---------------- *)
+Theorem C02_inline_off :
+  forall ci_key find_iq unit_class x s t items,
+    x_inline x = false -> dm_eqb (a_define s) DMComponents = false ->
+    in_step ci_key find_iq unit_class x s (EText t) items
+    = Done (set_block s (Some (BStep (items ++ [IText (text_str t)])))).
+Proof. exact inline_off. Qed.
+Print Assumptions C02_inline_off.
+
+Theorem C02_inline_untriggered :
+  forall ci_key find_iq unit_class x s t items,
+    find_iq (text_str t) = None -> is_nil (text_str t) = false ->
+    in_step ci_key find_iq unit_class (with_inline x true) s (EText t) items
+    = in_step ci_key find_iq unit_class (with_inline x false) s (EText t) items.
+Proof. exact inline_untriggered. Qed.
+Print Assumptions C02_inline_untriggered.
+
+(* ---- MODES and ADVANCED_UNITS as consulted by the analysis model --------------------------- *)
+Theorem C02_modes_analysis_off :
+  forall x s key value, x_modes x = false -> metadata x s key value = s.
+Proof. exact modes_analysis_off. Qed.
+Print Assumptions C02_modes_analysis_off.
+
+Theorem C02_timer_units_off :
+  forall unit_class x s t, x_advanced x = false ->
+    a_errors (fst (timer unit_class x s t)) = a_errors s.
+Proof. exact timer_units_off. Qed.
+Print Assumptions C02_timer_units_off.
+
+Theorem C02_timer_units_untriggered :
+  forall unit_class x s t,
+    (match pt_quantity t with
+     | Some q => negb (pvalue_is_text (qv_value (pq_value q)))
+                 && match pq_unit q with Some u => unit_class (text_trimmed u) =? 1 | None => true end
+     | None => true
+     end) = true ->
+    timer unit_class (with_advanced x true) s t = timer unit_class (with_advanced x false) s t.
+Proof. exact timer_units_untriggered. Qed.
+Print Assumptions C02_timer_units_untriggered.
+End AnalysisSide.
+
+(* ---- composition: quantities, components, the step loop ------------------------------------ *)
+(* a quantity that introduces its unit with `%` and holds no `-` is read the same way *)
+Theorem C02_quantity_invariant :
+  forall cfg e1 e2 q s,
+    Forall goodt q -> existsb (fun t => tk_eqb (kind t) KPercent) q = true ->
+    parse_quantity (with_ext cfg e1) q s = parse_quantity (with_ext cfg e2) q s.
+Proof. exact parse_quantity_inv. Qed.
+Print Assumptions C02_quantity_invariant.
+
+(* PARTIAL: the class core_tokens is narrower than the statement's (no timers, every non-blank
+   braced quantity has a `%`, no `-` at all); within it, for EVERY pair of extension words
+   (in particular the 192 sets) a step block yields the same events, diagnostics and panics. *)
+Theorem C02_step_invariant_partial :
+  forall cfg e1 e2 ts evs, core_tokens ts = true ->
+    run_block ts evs (parse_step (with_ext cfg e1)) = run_block ts evs (parse_step (with_ext cfg e2)).
+Proof. exact step_invariant. Qed.
+Print Assumptions C02_step_invariant_partial.
+
+Theorem C02_block_invariant_partial :
+  forall cfg e1 e2 old ts evs, step_start (head_kind ts) = true -> core_tokens ts = true ->
+    run_block ts evs (parse_block (with_ext cfg e1) old) = run_block ts evs (parse_block (with_ext cfg e2) old).
+Proof. exact block_invariant. Qed.
+Print Assumptions C02_block_invariant_partial.
+
+(* the hypotheses are satisfiable: "@salt{1%kg}(fine) mix 2 eggs #pot" lexed with the
+   implementation's character classes is a core block starting a step *)
+Example C02_core_tokens_satisfiable :
+  match lex U [64;115;97;108;116;123;49;37;107;103;125;40;102;105;110;101;41;32;109;105;120;32;50;32;
+               101;103;103;115;32;35;112;111;116] with
+  | Some ts => core_tokens ts && step_start (head_kind ts)
+  | None => false
+  end = true.
+Proof. vm_compute. reflexivity. Qed.
+
+(* and the class really excludes extension syntax: "@salt{1 kg}" is not core *)
+Example C02_core_tokens_rejects_unit_without_percent :
+  match lex U [64;115;97;108;116;123;49;32;107;103;125] with
+  | Some ts => core_tokens ts
+  | None => true
+  end = false.
+Proof. vm_compute. reflexivity. Qed.
+
+(* ---- the full statement, parser half: NOT proved (monitored by checks/c02.py) -------------- *)
+(* every source of the statement's class (core_source: Proofs/C02Invariance.v section 7) gives the
+   same event stream under any two of the 192 sets; the analysis half adds: analysing that
+   stream with any two sets gives the same recipe and reports no error. *)
+Definition C02_full_statement : Prop :=
+  forall (Ucls : N -> ucls) (cfg : pcfg) (e1 e2 : N) (s : str),
+    In e1 ext_sets -> In e2 ext_sets -> core_source Ucls s = true ->
+    events Ucls (with_ext cfg e1) s = events Ucls (with_ext cfg e2) s.
